@@ -304,6 +304,34 @@ PROPS = {
         'trusted_base': ['Kani 0.68.0 + CBMC 6.11', 'reference parser in tools/gen_optparse.py'],
         'assumptions': ['Mode::with_extensions only', 'two fixed option tables'],
     },
+    'C09': {
+        'v_units': ['redir'],
+        'k_units': [],
+        'level': 'other',
+        'explanation': (
+            'Kernel only: the save-then-replace mechanism and its restoration (yash-semantics/src/redir.rs), against an ASSUMED model of '
+            'the descriptor table (descriptor -> open file description + close-on-exec flag) behind the Close / Dup / Fcntl traits. '
+            'Verus proves, for every table and every list of redirections: perform() refuses a target that carries close-on-exec (a '
+            'descriptor the shell holds for itself), saves the target in a descriptor of the shell\'s own (>= MIN_INTERNAL_FD, close-on-exec), '
+            'changes the target only, and on ANY failure - expansion, open, a refused descriptor, dup2 - leaves the table exactly as it was '
+            '(finding F6: the backing copy used to stay open; fixed); RedirGuard keeps the invariant "undoing the recorded saves, last first, '
+            'gives back the table the guard started from" through perform_redir whether it succeeds or fails; undo_redirs and Drop restore '
+            'exactly that table and hold nothing afterwards, in reverse order, for any number of redirections including several of the '
+            'same descriptor; preserve_redirs (exec) keeps the redirected descriptors and closes every backing copy; the run-time '
+            'assertions of the code (assert_eq!/assert_ne!) cannot fail. Restoration clauses are stated under the hypothesis that close '
+            'and dup2 of valid descriptors do not fail (the code ignores those errors). NOT decided: what each operator opens '
+            '(open_normal, open_file_noclobber, copy_fd, here-documents: ASSUMED to open at most one new descriptor and nothing on '
+            'failure), expansion of the operand (assumed not to touch the table), which callers keep the guard alive for how long '
+            '(async interpreter code), move_fd_internal, and the simulated system itself.'),
+        'trusted_base': ['Verus 0.2026.09.13 + Z3', '/verif/tools/vextract.py'],
+        'assumptions': [
+            'the system traits Close / Dup / Fcntl are replaced by one synchronous model trait over a ghost descriptor table (fd -> open file description, close-on-exec); dup returns a descriptor that was not open, >= its minimum, EBADF exactly for a closed source; dup2 clears close-on-exec; close of a closed descriptor succeeds (as the trait documents); failures of close/dup2 on valid descriptors are a function of the state and excluded by hypothesis in the restoration clauses',
+            'expand_word / expand_text / open_normal / here_doc::open_fd / trace_* are external_body with assumed contracts: expansion leaves the table alone; opening yields one descriptor that was not open (Owned), an open one without close-on-exec (Borrowed), or nothing (Closed / error)',
+            'await points are dropped (strip-async): nothing else runs in between',
+            'Env reduced to the system field; RedirGuard passes itself where &mut Env is expected (DerefMut): checked as `self.env`; `for x in v.drain(..).rev()` is checked as `while let Some(x) = v.pop()`, `for x in v.drain(..)` through a helper with an assumed contract; Drop::drop is checked as an inherent method with the same body',
+            'Location, Word, Text, HereDoc, Field, XTrace, expansion errors, CString, NulError, ParseIntError are opaque placeholders; EnumSet<FdFlag> is a one-flag model; Errno::EBADF = 9',
+        ],
+    },
     'C10': {
         'v_units': ['errexit'],
         'k_units': ['errexit'],
